@@ -56,9 +56,12 @@ MANIFEST = dict(
          "candidate getters is recomputed by the model from the implementation's own pre-state (0 differences required); the "
          "property is also evaluated directly on the real editor (oracle_c07.rs: paging identities, page in range, "
          "completeness against an independently computed answer from the raw dictionary layers, the effect of every choice "
-         "incl. indices beyond the list and usize::MAX). NOT YET THEOREMS: that the highlighted range always consists of "
-         "syllables (RangeIs is a premise), the exact effect of an in-range choice on the two symbol lists (shape only: "
-         "closes or descends to page 0), termination of the selector loops. F04, F08, the missing page reset of j/k/jump "
+         "incl. indices beyond the list and usize::MAX). choose_special / choose_symbol (symbol lists: the listed character is inserted / replaces the symbol under "
+         "the cursor, a category opens its sub-table on page 0); opened_phrase_list_in_range / init_range (a freshly opened "
+         "phrase list is non-empty, on page 0, strictly in range, over a non-empty part of the buffer for which the "
+         "dictionary has a phrase). NOT YET THEOREMS: that the highlighted range always consists of syllables (RangeIs is a "
+         "premise) and begin<end<=len after Down/Space cycling and jumps (only after init), that the opened range is the "
+         "longest one with a phrase (oracle check D only), termination of the selector loops. F04, F08, the missing page reset of j/k/jump "
          "and the symbol lists' answer to an out-of-range choice were repaired by fix: commits; F32 is a known finding.",
     note="Trusted: Lean kernel (standard axioms), read-only snapshot hooks, harness + compiled model driver. The C functions "
          "chewing_cand_* are modelled by reading (thin wrappers over the Rust getters the correspondence drives).",
